@@ -1,21 +1,23 @@
-/* C16 H-1 / H-2: real tree_builder.c on the memoising hash model.
+/* C16 H-1 / H-2: real tree_builder.c (included below) on the memoising hash model.
  *
- * Shape (concrete per instance): NLEAVES leaves, KINDS[i] = 0 hash leaf (SHA-1 imprint) / 1 metadata leaf
- * (4-byte payload), ALG = algorithm of the inner nodes, REFUSE = -1 (every leaf acceptable) or the index
- * of the one leaf that the reference says must be refused.  Symbolic: all leaf digests / payload bytes,
- * every leaf level 0..255, builder->maxTreeLevel (any short; <= 0 = no limit).
+ * Shape (concrete per instance): NLEAVES accepted leaves, KINDS[i] = 0 hash leaf (SHA-1 imprint) / 1 metadata
+ * leaf (4-byte payload), ALG = algorithm of the inner nodes, REFUSE = -1 (every leaf acceptable) or the position
+ * in the sequence of the one additional leaf that the reference says must be refused.
+ * Symbolic: all leaf digests / payload bytes, every leaf level 0..255, builder->maxTreeLevel (MAXMODE 0: any
+ * short, <= 0 means no limit; 1: no limit; 2: 1..255).
  *
- * H-1 (REFUSE = -1):  assuming that the REFERENCE accepts every leaf, every add returns KSI_OK; after
- *   KSI_TreeBuilder_close the root hash and level equal the reference left-to-right merge (c16_ref.h), and
- *   for EVERY leaf the chain returned by KSI_TreeLeafHandle_getAggregationChain, folded by the harness' own
- *   chain formula from the leaf's value and level, ends at exactly the root imprint and root level.  If the
- *   reference root level leaves 0..255 (possible only without a limit) close must return an error.
- * H-2 (REFUSE = r): leaves before r acceptable, leaf r not acceptable according to the reference (would-be
- *   root level above maxTreeLevel, or a carry join above level 255): the add returns an error and no handle,
- *   CBMC's pointer / double-free / deallocated-object checks are on, and afterwards the tree closes to the
- *   reference root of the accepted leaves with valid chains for all of them (plus, instance flag MORE, one
- *   further acceptable leaf is accepted after the refusal).
- * Never calls KSI_TreeBuilder_free (DESIGN C16 engineering note). */
+ * H-1 (REFUSE = -1): assuming that the REFERENCE (c16_ref.h) accepts every leaf, every add returns KSI_OK and a
+ *   handle; KSI_TreeBuilder_close succeeds iff the reference root level is <= 255; then root hash and level
+ *   equal the reference left-to-right merge and, for EVERY leaf, the chain returned by
+ *   KSI_TreeLeafHandle_getAggregationChain, folded by the harness' own chain formula from the leaf's value
+ *   and level, ends at exactly the root imprint and root level; a further add after close is refused.
+ * H-2 (REFUSE = r): the leaf at position r is not acceptable according to the reference (would-be root level above
+ *   maxTreeLevel, or a carry join above level 255), all others are: that add returns an error and no handle,
+ *   with CBMC's pointer / double-free / deallocated-object checks on, and afterwards (possibly after more
+ *   accepted leaves) the tree closes to the reference root of the accepted leaves with valid chains for all.
+ * Never calls KSI_TreeBuilder_free (DESIGN C16 engineering note).
+ * While the reference says an operation must succeed, error exits of tree_builder.c are observed and cut
+ * (VERIF_expect_no_error, see env/ctx_expect.c and common/c16_instr.h). */
 #include "verif.h"
 #include "internal.h"
 #include "tree_builder.h"
@@ -26,12 +28,14 @@
 #include "verif_post.h"
 #include "c16_ref.h"
 #include "c16_md.h"
+#include "c16_instr.h"
+#include "tree_builder.c"
 
 #ifndef NLEAVES
 #define NLEAVES 3
 #endif
 #ifndef KINDS
-#define KINDS {0, 0, 0, 0, 0, 0, 0, 0}
+#define KINDS {0, 0, 0, 0, 0, 0, 0, 0, 0, 0}
 #endif
 #ifndef ALG
 #define ALG KSI_HASHALG_SHA1
@@ -40,34 +44,38 @@
 #define REFUSE (-1)
 #endif
 #ifndef MAXMODE
-#define MAXMODE 0      /* 0: maxTreeLevel fully symbolic; 1: no limit (0); 2: limit in 1..255 */
+#define MAXMODE 0
 #endif
 #define MAXLINKS 8
+#define NADDS (NLEAVES + (REFUSE >= 0 ? 1 : 0))
 
-static const int kinds[8] = KINDS;
+static const int kinds[10] = KINDS;
 
 /* the accepted leaves, in order */
 static struct c16_val leafv[NLEAVES];
+static int leafkind[NLEAVES];
 static KSI_TreeLeafHandle *handle[NLEAVES];
 
-/* fold the chain of one leaf by the chain formula; returns 1 when it ends at root */
-static void check_leaf_chain(KSI_TreeBuilder *b, unsigned i, const struct c16_val *root) {
+static int same_bytes(const struct c16_val *a, const unsigned char *p, size_t n) {
+	int eq = (n == a->len);
+	for (unsigned k = 0; k < C16_VMAX; k++) if (eq && k < a->len && p[k] != a->b[k]) eq = 0;
+	return eq;
+}
+
+/* fold the chain of leaf i by the chain formula and compare with the root */
+static void check_leaf_chain(unsigned i, const struct c16_val *root) {
 	KSI_AggregationHashChain *chain = NULL;
 	int res = KSI_TreeLeafHandle_getAggregationChain(handle[i], &chain);
 	CHECK(res == KSI_OK && chain != NULL, "C16.H1 an aggregation chain is returned for every accepted leaf");
 	if (res != KSI_OK || chain == NULL) return;
 
-	/* chain header: algorithm of the builder, input hash = the leaf's hash */
 	CHECK(chain->aggrHashId != NULL && KSI_Integer_getUInt64(chain->aggrHashId) == (KSI_uint64_t)ALG, "C16.H1 chain carries the builder's hash algorithm");
-	if (kinds[i] == 0) {
+	if (leafkind[i] == 0) {
 		const unsigned char *imp = NULL; size_t il = 0;
-		int eq;
 		CHECK(chain->inputHash != NULL, "C16.H1 chain of a hash leaf has an input hash");
 		if (chain->inputHash == NULL) return;
 		KSI_DataHash_getImprint(chain->inputHash, &imp, &il);
-		eq = (il == leafv[i].len);
-		for (unsigned k = 0; k < C16_VMAX; k++) if (eq && k < leafv[i].len && imp[k] != leafv[i].b[k]) eq = 0;
-		CHECK(eq, "C16.H1 chain input hash is the leaf's hash");
+		CHECK(same_bytes(&leafv[i], imp, il), "C16.H1 chain input hash is the leaf's hash");
 	}
 
 	struct c16_val cur = leafv[i], sib, nxt;
@@ -84,7 +92,6 @@ static void check_leaf_chain(KSI_TreeBuilder *b, unsigned i, const struct c16_va
 			CHECK(corr <= 255, "C16.H1 level correction fits the chain format");
 			level = level + corr + 1;
 			CHECK(level <= 255, "C16.H1 chain level stays within 0..255");
-			/* sibling value */
 			CHECK((link->imprint != NULL) != (link->metaData != NULL) && link->legacyId == NULL, "C16.H1 link has exactly one sibling: imprint or metadata");
 			sib.used = 1; sib.level = 0;
 			if (link->imprint != NULL) {
@@ -106,11 +113,8 @@ static void check_leaf_chain(KSI_TreeBuilder *b, unsigned i, const struct c16_va
 		}
 	}
 	CHECK(c16_H_missing == 0, "C16.H1 every chain step recomputes a hash the builder computed (left||right||level)");
-	int same = (cur.len == root->len);
-	for (unsigned k = 0; k < C16_VMAX; k++) if (same && k < root->len && cur.b[k] != root->b[k]) same = 0;
-	CHECK(same, "C16.H1 folded chain ends at the root hash");
+	CHECK(same_bytes(root, cur.b, cur.len), "C16.H1 folded chain ends at the root hash");
 	CHECK(level == root->level, "C16.H1 folded chain ends at the root level");
-	(void)b;
 }
 
 void harness(void) {
@@ -138,7 +142,7 @@ void harness(void) {
 	unsigned nacc = 0;           /* concrete */
 	unsigned nmd = 0;
 
-	for (unsigned i = 0; i < NLEAVES + (REFUSE >= 0 ? 1 : 0); i++) {
+	for (unsigned i = 0; i < NADDS; i++) {
 		/* ---- a fresh symbolic leaf ---- */
 		struct c16_val v; KSI_DataHash *hsh = NULL; KSI_MetaData *md = NULL;
 		int level = ND(int, level); ASSUME(level >= 0 && level <= 255);
@@ -159,12 +163,14 @@ void harness(void) {
 		struct c16_forest G = F;
 		unsigned carry_hi = c16_forest_add(&G, ALG, &v, 0);
 		int ref_accept = limit_ok && carry_hi <= 255;
-		int must_refuse = ((int)i == REFUSE);
+		const int must_refuse = ((int)i == REFUSE);
 		if (must_refuse) ASSUME(!ref_accept); else ASSUME(ref_accept);
 
 		KSI_TreeLeafHandle *h = NULL;
+		VERIF_expect_no_error = !must_refuse;
 		if (kind == 0) res = KSI_TreeBuilder_addDataHash(b, hsh, level, &h);
 		else res = KSI_TreeBuilder_addMetaData(b, md, level, &h);
+		VERIF_expect_no_error = 0;
 
 		if (must_refuse) {
 			CHECK(res != KSI_OK, "C16.H2 a leaf beyond the maximum level or beyond level 255 is refused");
@@ -179,20 +185,27 @@ void harness(void) {
 			CHECK(res == KSI_OK, "C16.H1 an acceptable leaf is accepted");
 			CHECK(h != NULL, "C16.H1 a handle is returned for an accepted leaf");
 			if (res != KSI_OK || h == NULL) return;
-			(void)c16_forest_add(&F, ALG, &v, 0);   /* levels only: hashes are looked up after close */
-			leafv[nacc] = v; handle[nacc] = h; nacc++;
+			F = G;                                  /* levels only: hashes are looked up after close */
+			leafv[nacc] = v; leafkind[nacc] = (int)kind; handle[nacc] = h; nacc++;
 		}
 	}
 
 	/* ---- close ---- */
 	struct c16_val lroot;
 	(void)c16_forest_close(&F, ALG, &lroot, 0);
-	res = KSI_TreeBuilder_close(b);
-	CHECK((res == KSI_OK) == (lroot.level <= 255), "C16.H1 close succeeds iff the root level stays within 0..255");
-	if (res != KSI_OK) {
-		if (lroot.level > 255) WITNESS_POINT("close refused: root level above 255");
+	if (lroot.level > 255) {
+		/* possible only without a limit: the last joins leave 0..255 */
+		res = KSI_TreeBuilder_close(b);
+		CHECK(res != KSI_OK, "C16.H1 close fails when the root level would leave 0..255");
+#ifdef WIT_CLOSE_OVERFLOW     /* reachable iff there is no limit and NLEAVES is not a power of two */
+		WITNESS_POINT("close refused: root level above 255");
+#endif
 		return;
 	}
+	VERIF_expect_no_error = 1;
+	res = KSI_TreeBuilder_close(b);
+	CHECK(res == KSI_OK, "C16.H1 close succeeds when the root level stays within 0..255");
+	if (res != KSI_OK) return;
 	CHECK(VERIF_hm_overflow == 0, "C16.H1 hash model large enough");
 
 	/* ---- reference tree with hashes (now that every message is on record) ---- */
@@ -213,11 +226,18 @@ void harness(void) {
 		CHECK(b->rootNode->hash != NULL, "C16.H1 root node carries a hash");
 		if (b->rootNode->hash == NULL) return;
 		KSI_DataHash_getImprint(b->rootNode->hash, &imp, &il);
-		int eq = (il == root.len);
-		for (unsigned k = 0; k < C16_VMAX; k++) if (eq && k < root.len && imp[k] != root.b[k]) eq = 0;
-		CHECK(eq, "C16.H1 root hash = hash of the reference merge");
-		/* every leaf's chain */
-		for (unsigned i = 0; i < NLEAVES; i++) check_leaf_chain(b, i, &root);
+		CHECK(same_bytes(&root, imp, il), "C16.H1 root hash = hash of the reference merge");
+		for (unsigned i = 0; i < NLEAVES; i++) check_leaf_chain(i, &root);
+	}
+	VERIF_expect_no_error = 0;
+
+	/* ---- a closed tree takes no more leaves (tree_builder.h) ---- */
+	{
+		u8 d[20]; KSI_DataHash *hsh = NULL; KSI_TreeLeafHandle *h = NULL;
+		for (unsigned k = 0; k < 20; k++) d[k] = ND(u8, late);
+		res = KSI_DataHash_fromDigest(ctx, KSI_HASHALG_SHA1, d, 20, &hsh); ASSUME(res == KSI_OK);
+		res = KSI_TreeBuilder_addDataHash(b, hsh, 0, &h);
+		CHECK(res != KSI_OK && h == NULL, "C16.H1 a closed tree refuses further leaves");
 	}
 #if REFUSE < 0
 #if MAXMODE != 1
